@@ -400,6 +400,34 @@ def strip_forms(d):
     return recognised
 
 
+SERDE_SNAKE_FN = None  # set below: recognised body of a local re-implementation of serde's snake_case for variants
+
+
+def published_rule(d):
+    """how `MsgVariants::as_names_snake_cased` derives the published routing names from variant names:
+    0 = convert_case Snake, 1 = serde's own rule (local function with the recognised body), 2 = unrecognised"""
+    fn = d.fn("types/msg_variant.rs", "MsgVariants", "as_names_snake_cased")
+    if fn is None:
+        return 2
+    b = fn["body"]
+    if b == "{self.variants.iter().map(|variant|variant.name.to_string().to_case(Case::Snake)).collect()}":
+        return 0
+    m = re.fullmatch(r"\{self\.variants\.iter\(\)\.map\(\|variant\|(\w+)\(&variant\.name\.to_string\(\)\)\)\.collect\(\)\}", b)
+    if m:
+        helper = None
+        for f in d.files.values():
+            for g in f.get("fns", []):
+                if g["name"] == m.group(1) and g["container"] == "":
+                    helper = g
+        if helper is not None and helper["body"] == SERDE_SNAKE_BODY:
+            return 1
+    d.problems.append("MsgVariants::as_names_snake_cased: unrecognised derivation of the published names")
+    return 2
+
+
+SERDE_SNAKE_BODY = "{letmutsnake=String::new();for(i,ch)invariant.char_indices(){ifi>0&&ch.is_uppercase(){snake.push('_');}snake.push(ch.to_ascii_lowercase());}snake}"
+
+
 def kt(rows, val):
     return llist("(.%s, %s)" % (KINDS[k], val(v)) for k, v in rows)
 
@@ -434,6 +462,7 @@ def generate(dump_lines):
     casings = casing_sites(d)
     ep = entry_point_logic(d)
     strip_forms(d)
+    prule = published_rule(d)
 
     o = []
     o.append("import Sylvia.Model.Kinds")
@@ -461,6 +490,8 @@ def generate(dump_lines):
         "(%s, %s, %s, %d, %d, %s)" % (str(r).lower(), str(op).lower(), str(i).lower(), cl[0], cl[1], str(cl[2]).lower()) for r, op, i, cl in guards))
     o.append("def renameAllSites : List (Str × Str) := %s" % llist("(%s, %s)" % (lstr(a), lstr(b)) for a, b in renames))
     o.append("def casingSites : List (Str × Str) := %s" % llist("(%s, %s)" % (lstr(a), lstr(b)) for a, b in casings))
+    o.append("/-- 0: convert_case Snake of the variant name; 1: serde's rename rule for variants; 2: unrecognised -/")
+    o.append("def publishedRule : Nat := %d" % prule)
     o.append("def epDefaults : List Kind := %s" % llist("." + KINDS[k] for k in (ep.get("defaults") or []) if k in KINDS))
     o.append("")
     o.append("end Extracted")
